@@ -1151,8 +1151,158 @@ def write_acc() -> list[str]:
     return errors
 
 
+# --------------------------------------------------------------------------------------------------------------- descriptive outputs spec
+def capture_desc():
+    """`term_frequencies_for_single_column_sql` (called directly: it is a pure function of the column) and the per-column
+    sub-select of `completeness_data` (captured from a real run on two tables), with roles `t_in (v)` / `cws_in (sd, v)`."""
+    import pandas as pd
+
+    from splink import DuckDBAPI
+    from splink.internals.completeness import completeness_data
+    from splink.internals.input_column import InputColumn
+    from splink.internals.term_frequencies import term_frequencies_for_single_column_sql
+
+    errors = []
+    tf_sql = _norm(term_frequencies_for_single_column_sql(InputColumn("v", sqlglot_dialect_str="duckdb"), "t_in"))
+    tf_sql = tf_sql.replace('"v"', "v")
+    api = DuckDBAPI()
+    a = pd.DataFrame({"unique_id": [1, 2, 3], "v": ["x", None, "y"], "w": [1.0, None, None]})
+    b = pd.DataFrame({"unique_id": [1, 2], "v": [None, "y"], "w": [2.0, 3.0]})
+    with Capture() as cap:
+        completeness_data(api.register_multiple_tables([a, b]), api, cols=["v", "w"])
+    sub = None
+    for ex in cap.rec:
+        for nm, sql in ex["ctes"]:
+            if nm == "__splink__df_all_column_completeness":
+                sub = _norm(sql)
+    comp_sql = None
+    if sub is None:
+        errors.append("completeness_data did not emit __splink__df_all_column_completeness")
+    else:
+        parts = [p.strip() for p in re.split(r"\bunion all\b", sub, flags=re.I)]
+        norm = []
+        for part, col in zip(parts, ["v", "w"]):
+            part = part.strip()
+            if part.startswith("(") and part.endswith(")"):
+                part = part[1:-1].strip()
+            part = re.sub(r'"?\b' + col + r'\b"?', "COL", part)
+            norm.append(part)
+        if len(parts) != 2 or norm[0] != norm[1]:
+            errors.append(f"the per-column completeness sub-selects differ by more than the column name: {norm}")
+        else:
+            comp_sql = norm[0].replace("'COL' as column_name", "'v' as column_name").replace("COL", "v")
+            comp_sql = comp_sql.replace("__completeness_source_dataset", "sd").replace("__splink__df_concat_with_source_dataset", "cws_in")
+    return {"tf": tf_sql, "completeness": comp_sql, "errors": errors}
+
+
+def write_desc() -> list[str]:
+    """(Re)generate Generated/DescSql.lean.  Returns error strings."""
+    cap = capture_desc()
+    errors = list(cap["errors"])
+    L = ["import SplinkVerif.Model.Rel"]
+    L.append("/-! GENERATED by harness/translate/tsql.py from `term_frequencies.py: term_frequencies_for_single_column_sql` and the")
+    L.append("per-column sub-select of `completeness.py: completeness_data` on the current tree.  Do not edit.")
+    L.append("Tables: `t_in` (v) = the column of the concatenated input; `cws_in` (sd, v) = source dataset and the column. -/")
+    L.append("namespace SplinkVerif.Gen.DescSql")
+    L.append("open SplinkVerif.Rel")
+    L.append("")
+    for name, sql, schemas, types in (("tfTable", cap["tf"], {"t_in": ["v"]}, {"t_in": ["any"]}),
+                                     ("completenessCol", cap["completeness"], {"cws_in": ["sd", "v"]}, {"cws_in": ["any", "any"]})):
+        if sql is None:
+            continue
+        out = _translate_seq([(name, sql)], schemas, {}, errors, "desc/", types)
+        nm, term, cols, used, sql_ = out[0]
+        L.append(f"/-- `{sql_}` ; columns {cols} -/")
+        if term is None:
+            L.append(f"-- UNTRANSLATABLE: {name}")
+        else:
+            L.append(f"def {name} : Rel :=\n  {term}")
+        L.append("")
+    L.append("end SplinkVerif.Gen.DescSql")
+    text = "\n".join(L) + "\n"
+    p = GEN / "DescSql.lean"
+    if not p.exists() or p.read_text() != text:
+        p.write_text(text)
+    return errors
+
+
+# --------------------------------------------------------------------------------------------------------------- EM M-step spec
+def capture_em():
+    """`expectation_maximisation.py: compute_new_parameters_sql` and `compute_proportions_for_new_parameters_sql` are pure functions of
+    (the flag, the comparisons' gamma column / output names) and of the table name: they are CALLED with stub comparisons.  The
+    per-comparison blocks of the UNION ALL must be the same text up to the two names; one block and the final lambda block are
+    translated over the role table `predict_in` (gamma, match_probability, agreement_pattern_count)."""
+    from types import SimpleNamespace
+
+    from splink.internals.expectation_maximisation import compute_new_parameters_sql, compute_proportions_for_new_parameters_sql
+
+    errors = []
+    comps = [SimpleNamespace(_gamma_column_name=f"gamma_{n}", output_column_name=n) for n in ("aa", "bb", "cc")]
+    out = {"errors": errors}
+    for flag, key in ((True, "apc"), (False, "rows")):
+        sql = _norm(compute_new_parameters_sql(flag, comps))
+        parts = [x.strip() for x in re.split(r"\bunion all\b", sql, flags=re.I)]
+        if len(parts) != len(comps) + 1:
+            errors.append(f"compute_new_parameters_sql({flag}) is not one block per comparison plus the lambda block: {sql[:300]}")
+            continue
+        blocks = [b.replace(f"gamma_{c.output_column_name}", "gamma").replace(f"'{c.output_column_name}'", "'NAME'") for b, c in zip(parts, comps)]
+        if len(set(blocks)) != 1:
+            errors.append(f"the per-comparison blocks of compute_new_parameters_sql({flag}) differ by more than the names: {blocks}")
+            continue
+        out[key] = (blocks[0].replace("__splink__df_predict", "predict_in"), parts[-1].replace("__splink__df_predict", "predict_in"))
+    out["proportions"] = _norm(compute_proportions_for_new_parameters_sql("mu_in"))
+    return out
+
+
+def write_em() -> list[str]:
+    """(Re)generate Generated/EMSql.lean.  Returns error strings."""
+    cap = capture_em()
+    errors = list(cap["errors"])
+    L = ["import SplinkVerif.Model.Rel"]
+    L.append("/-! GENERATED by harness/translate/tsql.py from `expectation_maximisation.py: compute_new_parameters_sql` (one per-comparison")
+    L.append("block and the lambda block, for both values of estimate_without_term_frequencies) and")
+    L.append("`compute_proportions_for_new_parameters_sql` on the current tree.  Do not edit.")
+    L.append("Tables: `predict_in` (gamma, match_probability, agreement_pattern_count) = the columns of `__splink__df_predict` a block reads")
+    L.append("(gamma = the comparison's gamma column); `mu_in` (comparison_vector_value, m_count, u_count, output_column_name).")
+    L.append("Parameter `name` = the comparison's output_column_name literal. -/")
+    L.append("namespace SplinkVerif.Gen.EMSql")
+    L.append("open SplinkVerif.Rel")
+    L.append("")
+    pschema = {"predict_in": ["gamma", "match_probability", "agreement_pattern_count"]}
+    ptypes = {"predict_in": ["int", "rat", "int"]}
+    for key, suffix in (("apc", "Apc"), ("rows", "Rows")):
+        if key not in cap:
+            continue
+        block, lam = cap[key]
+        for nm, sql, params in ((f"countsBlock{suffix}", block, {"NAME": ("name", "str")}), (f"lambdaBlock{suffix}", lam, {})):
+            outp = _translate_seq([(nm, sql)], dict(pschema), params, errors, "em/", dict(ptypes))
+            _, term, cols, used, sql_ = outp[0]
+            L.append(f"/-- `{sql_}` ; columns {cols} -/")
+            if term is None:
+                L.append(f"-- UNTRANSLATABLE: {nm}")
+            else:
+                args = "".join(f" ({p} : Val)" for p in used)
+                L.append(f"def {nm}{args} : Rel :=\n  {term}")
+            L.append("")
+    outp = _translate_seq([("proportions", cap["proportions"])], {"mu_in": ["comparison_vector_value", "m_count", "u_count", "output_column_name"]}, {}, errors, "em/",
+                          {"mu_in": ["int", "rat", "rat", "str"]})
+    _, term, cols, used, sql_ = outp[0]
+    L.append(f"/-- `{sql_}` ; columns {cols} -/")
+    if term is None:
+        L.append("-- UNTRANSLATABLE: proportions")
+    else:
+        L.append(f"def proportions : Rel :=\n  {term}")
+    L.append("")
+    L.append("end SplinkVerif.Gen.EMSql")
+    text = "\n".join(L) + "\n"
+    p = GEN / "EMSql.lean"
+    if not p.exists() or p.read_text() != text:
+        p.write_text(text)
+    return errors
+
+
 # --------------------------------------------------------------------------------------------------------------- isolation
-WRITERS = {"cc": "write_cc", "multi": "write_multi", "gm": "write_gm", "acc": "write_acc"}
+WRITERS = {"cc": "write_cc", "multi": "write_multi", "gm": "write_gm", "acc": "write_acc", "desc": "write_desc", "em": "write_em"}
 
 
 def run_isolated(which: str, timeout: int = 600) -> list[str]:
@@ -1184,6 +1334,6 @@ if __name__ == "__main__":
     import sys
 
     which = sys.argv[1] if len(sys.argv) > 1 else "cc"
-    errs = {"cc": write_cc, "multi": write_multi, "gm": write_gm, "acc": write_acc}[which]()
+    errs = {"cc": write_cc, "multi": write_multi, "gm": write_gm, "acc": write_acc, "desc": write_desc, "em": write_em}[which]()
     print("\n".join(errs) or "ok")
-    print((GEN / {"cc": "CCSql.lean", "multi": "MultiSql.lean", "gm": "GMSql.lean", "acc": "AccSql.lean"}[which]).read_text()[:12000])
+    print((GEN / {"cc": "CCSql.lean", "multi": "MultiSql.lean", "gm": "GMSql.lean", "acc": "AccSql.lean", "desc": "DescSql.lean", "em": "EMSql.lean"}[which]).read_text()[:12000])
